@@ -305,8 +305,10 @@ def lockp(chk, fx):
                             names = A.field_names(A.access_path(A.call_object(eff[2])))
                             log.append("cursor" if "cursor_stack" in names else "value" if "value_stack" in names else "?")
                     if e[0] == "cond":
-                        t = AI.atom(e[1])
-                        log.append(("cond", AI.tstr(t[2]) if t[0] == "cmp" else "", e[2]))
+                        # the guard is recognised by what it asks (size() or empty() of the value stack), not by
+                        # the form of the comparison
+                        from ..canon import Canon
+                        log.append(("cond", Canon(f).c(e[1]), e[2]))
             pops = [x for x in log if isinstance(x, str)]
             if pops.count("cursor") != 1 or pops.count("value") > 1 or "?" in pops:
                 ok = False
@@ -314,7 +316,7 @@ def lockp(chk, fx):
                               "a path through pop_stacks pops %s" % pops)
             elif pops.count("value") == 0:
                 # allowed only when the value stack is empty (guard value_stack.size() != 0 false)
-                guards = [x for x in log if isinstance(x, tuple) and "value_stack" in x[1] and "size" in x[1]]
+                guards = [x for x in log if isinstance(x, tuple) and "value_stack" in x[1] and ("size" in x[1] or "empty" in x[1])]
                 if not guards:
                     ok = False
                     chk.violation("LOCKP", A.site(f), "LOCKP:pop_stacks:value-not-popped",
